@@ -176,3 +176,29 @@ Theorem C16_monitor_session_accepts_leader : forall tr w t r n q s0,
   In (WEnter t q) tr -> q_session q = Some s0 -> session_clause tr t (wsession w t) = true.
 Proof. exact monitor_session_accepts_leader. Qed.
 Print Assumptions C16_monitor_session_accepts_leader.
+
+(* Attribution (Corr_C16.judge): on every run of the wrapper model, each failing clause of the
+   monitor carries the signature of a listed finding — a failing subject clause only when the
+   caller's or its leader's question violates the guard (C16-K2) ... *)
+Theorem C16_monitor_subject_failure_explained : forall tr w t,
+  wreach tr w -> (forall q, In q (questions tr) -> wf_question q = true) ->
+  thread (w_g w) t <> None -> guard_clause tr t = true -> subject_clause tr t = true.
+Proof. exact monitor_subject_failure_explained. Qed.
+Print Assumptions C16_monitor_subject_failure_explained.
+
+(* ... a failing session clause only for a merged follower of a session-keyed call (C16-K1) ... *)
+Theorem C16_monitor_session_failure_explained : forall tr w t c r n,
+  wreach tr w -> thread (w_g w) t = Some (Returned c r n) ->
+  session_clause tr t (wsession w t) = true \/ (is_follower tr t = true /\ has_session_question tr t = true).
+Proof. exact monitor_session_failure_explained. Qed.
+Print Assumptions C16_monitor_session_failure_explained.
+
+(* ... so, whatever mixture of the two findings one schedule exhibits, a case whose observation
+   equals the model's prediction is attributed (never left as an unexplained violation), while a
+   failing clause without a signature keeps it a VIOLATION. *)
+Theorem C16_monitor_failures_explained : forall tr w t c r n,
+  wreach tr w -> (forall q, In q (questions tr) -> wf_question q = true) ->
+  thread (w_g w) t = Some (Returned c r n) ->
+  clause_failures_explained tr t (wsession w t) = true.
+Proof. exact monitor_failures_explained. Qed.
+Print Assumptions C16_monitor_failures_explained.
